@@ -126,9 +126,10 @@ Theorem ir_denotes_model : forall (tok act layer : Type) (O : ops tok act layer)
      run_transformer O (run_text_unembedding O) pk layers causal [VToks toks; pmv pm]
        = VActs (transformer_lm O pk layers causal pm toks)).
 Proof.
-  intros tok act layer O. repeat split.
-  - apply resblock_tie. - apply torso_tie. - apply text_embedding_tie. - apply policy_value_tie.
-  - apply text_unembedding_tie. - apply transformer_pv_tie. - apply transformer_pv_tie. - apply transformer_lm_tie.
+  intros tok act layer O.
+  split; [apply resblock_tie|]. split; [apply torso_tie|]. split; [apply text_embedding_tie|].
+  split; [apply policy_value_tie|]. split; [apply text_unembedding_tie|].
+  split; [apply transformer_pv_tie|apply transformer_lm_tie].
 Qed.
 
 (* every mask producer of the source yields true = padding at exactly the positions >= the row's real length *)
@@ -151,4 +152,4 @@ Qed.
 Example server_producer_is_one :
   exists p, In p mask_producers /\ pr_rows p = RZeroPadded /\ (forall W, mask_width (pr_mask p) W = W) /\
             pr_name p = "tak/model/server.py:Server.run_model".
-Proof. eexists. split; [right; right; right; left; reflexivity|]. repeat split. Qed.
+Proof. eexists. split; [right; right; right; left; reflexivity|]. split; [reflexivity|]. split; [intros W; reflexivity|reflexivity]. Qed.
